@@ -338,6 +338,13 @@ func signCase[P any](a alg, class string, payload P, aad []byte, detached bool, 
 	try("alg-missing", rebuild(nil, unprot, pl, sig), dp, refDet, aad, pub)
 	try("alg-in-unprotected-only", rebuild(nil, rc.M(rc.U(1), rc.Int(a.id)), pl, sig), dp, refDet, aad, pub)
 	try("protected-extra-label", rebuild(rc.Encode(rc.M(rc.U(1), rc.Int(a.id), rc.U(4), rc.Bs([]byte{1}))), unprot, pl, sig), dp, refDet, aad, pub)
+	// an entry of every value class slipped into the protected header under labels nobody uses: the protected bytes
+	// differ from what was signed whatever the value means to the receiver
+	for _, lbl := range []*rc.Item{rc.U(99), rc.N(98), rc.T("x")} {
+		for vn, v := range map[string]*rc.Item{"null": rc.Null(), "false": rc.Bool(false), "zero": rc.U(0), "empty-bstr": rc.Bs(nil), "empty-tstr": rc.T(""), "empty-array": rc.A(), "empty-map": rc.M()} {
+			try("protected-extra:"+lbl.String()+":"+vn, rebuild(rc.Encode(rc.M(rc.U(1), rc.Int(a.id), lbl, v)), unprot, pl, sig), dp, refDet, aad, pub)
+		}
+	}
 	if !detached {
 		try("payload-null", rebuild(prot, unprot, rc.Null(), sig), nil, nil, aad, pub)
 	}
